@@ -204,8 +204,8 @@ func c11PipelineStream(ctx *core.Ctx) {
 			ctx.Add("c11.next", map[string]any{"p": p, "k": k})
 		}
 	}
-	// at the root `Next` does not escape: it splits (Props/C11Lift.lean assumes root.Next("services") = ["services"])
-	for _, k := range []string{"services", "networks", "volumes", "x-ext", "services.a", "a.b.c", ".", ""} {
+	// at the root `Next` does not escape: it splits (Props/C11Lift.lean: RootFacts — root.Next(k) = [k] for the five section names)
+	for _, k := range []string{"services", "networks", "volumes", "configs", "secrets", "x-ext", "services.a", "a.b.c", ".", ""} {
 		ctx.Count("path-next:root")
 		ctx.Add("c11.next", map[string]any{"p": []string{""}, "k": k})
 	}
